@@ -579,3 +579,110 @@ func ruleCallbackNotBypassed(p *Program, r *Report) {
 }
 
 func init() { register("C04", Rule{"R04c", ruleCallbackNotBypassed}) }
+
+// R04d: raw rows stand in for projected rows only under an identity projector.  A positional relation stores its
+// rows in its own column order; every function that takes a column projector works on `row.project(p)`.  Handing
+// out the stored row set itself (returning it, passing it on, wrapping it in a new relation) from such a function
+// is the projection only when the projector is the identity — which `p.isIdentity(width)` decides; the projector's
+// length does not (a permutation has full length).
+func ruleRawRowsOnlyUnderIdentity(p *Program, r *Report) {
+	r.Begin("R04d", "raw rows only under identity: in a function of package rel that takes a valueProjector, the stored row set of a positionalRelation (its `set` field) is returned, passed to another function or stored only on a path dominated by the true branch of isIdentity() on a projector parameter — elsewhere rows are used through project(p); a fast path guarded by the projector's length treats a column permutation as the identity", 0)
+	defer r.End()
+	relPkg := p.Pkg("rel")
+	isProj := func(t types.Type) bool { return TypeName(t) == "rel.valueProjector" }
+	n := 0
+	for _, fn := range p.RepoFns {
+		if fn.Pkg != relPkg {
+			continue
+		}
+		top := fn
+		for top.Parent() != nil {
+			top = top.Parent()
+		}
+		var projs []*ssa.Parameter
+		for _, q := range top.Params {
+			if isProj(q.Type()) {
+				projs = append(projs, q)
+			}
+		}
+		for _, q := range fn.Params {
+			if isProj(q.Type()) {
+				projs = append(projs, q)
+			}
+		}
+		if len(projs) == 0 {
+			continue
+		}
+		ord := 0
+		ForEachInstr(fn, func(ins ssa.Instruction) {
+			ld, ok := ins.(*ssa.UnOp)
+			if !ok || ld.Op != token.MUL {
+				return
+			}
+			fa, ok := ld.X.(*ssa.FieldAddr)
+			if !ok || TypeName(Deref(fa.X.Type())) != "rel.positionalRelation" {
+				return
+			}
+			if st := structOf(fa.X.Type()); st == nil || st.Field(fa.Field).Name() != "set" {
+				return
+			}
+			if ld.Referrers() == nil {
+				return
+			}
+			for _, ref := range *ld.Referrers() {
+				escapes := false
+				switch u := ref.(type) {
+				case *ssa.Return:
+					escapes = true
+				case *ssa.Store:
+					escapes = u.Val == ssa.Value(ld)
+				case ssa.CallInstruction:
+					cc := u.Common()
+					// methods of the set itself (Range, Count, Has, Where …) read it; passing it as an argument hands it on
+					// (also through frozen's free functions SetMap / SetGroupBy, which enumerate it with a callback)
+					if g := cc.StaticCallee(); g != nil && InRepo(g) {
+						for _, a := range cc.Args {
+							if a == ssa.Value(ld) {
+								escapes = true
+							}
+						}
+					}
+				case *ssa.MakeInterface, *ssa.Phi:
+					escapes = true
+				}
+				if !escapes {
+					continue
+				}
+				n++
+				ord++
+				r.Fn(FnName(top))
+				key := fmt.Sprintf("raw-rows@%s~%d", FnName(fn), ord)
+				guarded := false
+				for d := ref.Block(); d != nil && !guarded; d = d.Idom() {
+					id := d.Idom()
+					if id == nil {
+						break
+					}
+					iff, isIf := id.Instrs[len(id.Instrs)-1].(*ssa.If)
+					if !isIf || id.Succs[0] != d || len(d.Preds) != 1 {
+						continue
+					}
+					if c, isCall := iff.Cond.(*ssa.Call); isCall {
+						if g := c.Call.StaticCallee(); g != nil && g.Name() == "isIdentity" {
+							guarded = true
+						}
+					}
+				}
+				r.Check(guarded, key, "only where the projector is the identity", fmt.Sprintf("%s hands out a relation's stored rows in place of their projection without having established projector.isIdentity(): for a relation whose columns are stored in another order (every join result) the rows are compared or combined column-by-column with the wrong columns", FnName(fn)), ref.Pos())
+			}
+		})
+	}
+	if n == 0 {
+		r.Info("sites", "no function with a projector parameter hands out raw rows", 0)
+	}
+}
+
+func init() {
+	register("C04", Rule{"R04d", ruleRawRowsOnlyUnderIdentity})
+	register("C01", Rule{"R04d", ruleRawRowsOnlyUnderIdentity})
+}
